@@ -330,10 +330,12 @@ func xpkgEnumOnly() *fileB {
 
 func xpkgFiles() (a1, a2, b, c *fileB) {
 	a1 = newFile("xa", "a1", "vf.xpkg.a")
-	a1.enum(enum("Color", "COLOR_UNSPECIFIED", 0, "COLOR_RED", 1, "COLOR_BLUE", 5))
+	// (declared out of numeric order: the first value is not the smallest)
+	a1.enum(enum("Color", "COLOR_UNSPECIFIED", 0, "COLOR_RED", 1, "COLOR_BELOW", -1, "COLOR_BLUE", 5, "COLOR_LOW", -7))
 	am := newMsg(".vf.xpkg.a", "Base")
 	am.add(field("id", 1, kindSpec{t: tUint64}))
 	am.add(field("color", 2, kindSpec{t: tEnum, name: ".vf.xpkg.a.Color"}))
+	am.add(field("type", 3, kindSpec{t: tString})) // a name the fast-reflection type needs for itself, in several files of one request
 	am.nest(func() *msgB {
 		n := newMsg(am.full, "Inner")
 		n.add(field("x", 1, kindSpec{t: tSint32}))
@@ -346,6 +348,8 @@ func xpkgFiles() (a1, a2, b, c *fileB) {
 	a2m.add(field("base", 1, kindSpec{t: tMessage, name: ".vf.xpkg.a.Base"}))
 	a2m.add(field("inner", 2, kindSpec{t: tMessage, name: ".vf.xpkg.a.Base.Inner"}))
 	a2m.add(repeated(field("colors", 3, kindSpec{t: tEnum, name: ".vf.xpkg.a.Color"})))
+	a2m.add(field("color", 4, kindSpec{t: tEnum, name: ".vf.xpkg.a.Color"}))
+	a2m.add(field("type", 5, kindSpec{t: tSint32}))
 	a2.msg(a2m)
 	b = newFile("xb", "b", "vf.xpkg.b").dep(*a1.f.Name, *a2.f.Name, *xpkgEnumOnly().f.Name)
 	bm := newMsg(".vf.xpkg.b", "UsesA")
@@ -358,12 +362,16 @@ func xpkgFiles() (a1, a2, b, c *fileB) {
 	bo := bm.oneof("which")
 	bm.add(inOneof(field("w_base", 5, kindSpec{t: tMessage, name: ".vf.xpkg.a.Base"}), bo))
 	bm.add(inOneof(field("w_color", 6, kindSpec{t: tEnum, name: ".vf.xpkg.a.Color"}), bo))
+	bm.add(field("type", 9, kindSpec{t: tBytes}))
+	bm.add(field("get", 10, kindSpec{t: tEnum, name: ".vf.xpkg.a.Color"}))
 	b.msg(bm)
 	c = newFile("xc", "c", "vf.xpkg.c").dep(*a1.f.Name, *b.f.Name)
 	cm := newMsg(".vf.xpkg.c", "UsesAB")
 	cm.add(field("b", 1, kindSpec{t: tMessage, name: ".vf.xpkg.b.UsesA"}))
 	cm.add(field("a", 2, kindSpec{t: tMessage, name: ".vf.xpkg.a.Base"}))
 	cm.add(unpacked(field("colors", 3, kindSpec{t: tEnum, name: ".vf.xpkg.a.Color"})))
+	cm.add(field("type", 4, kindSpec{t: tEnum, name: ".vf.xpkg.a.Color"}))
+	cm.add(field("descriptor", 5, kindSpec{t: tString}))
 	c.msg(cm)
 	return
 }
